@@ -333,7 +333,7 @@ func TestSim(t *testing.T) {
 // that replaying it (in this process; the driver repeats it in a fresh one)
 // gives the same signature.
 func reportViolation(t *testing.T, sc *Scenario, res *RunResult, v Violation, tier, replayDir string) violationLine {
-	orig := res.Tape
+	orig := tapePair{res.Tape, res.Sched}
 	budget := 45 * time.Second
 	maxCand := 6000
 	if tier == "quick" {
@@ -341,16 +341,16 @@ func reportViolation(t *testing.T, sc *Scenario, res *RunResult, v Violation, ti
 		maxCand = 3000
 	}
 	isRace := strings.HasPrefix(v.Sig, "RACE")
-	var small []int
+	var small tapePair
 	tries := 0
 	if isRace {
 		// a race is identified through the log file; shrinking would need a log
 		// read per candidate: keep the original tape, it replays exactly.
 		small = orig
 	} else {
-		small, tries = shrink(t, sc, orig, v.Sig, tier, budget, maxCand)
+		small, tries = shrink(t, sc, orig.gen, orig.sched, v.Sig, tier, budget, maxCand)
 	}
-	final := execRun(t, sc, simrt.NewReplayTape(small), res.Seed, res.Run, tier, true)
+	final := execRun(t, sc, simrt.NewReplayTape(small.gen, small.sched), res.Seed, res.Run, tier, true)
 	repro := hasSig(final, v.Sig)
 	if isRace {
 		txt := readRaceLog()
@@ -363,7 +363,7 @@ func reportViolation(t *testing.T, sc *Scenario, res *RunResult, v Violation, ti
 	if !repro {
 		// fall back to the unshrunk tape
 		small = orig
-		final = execRun(t, sc, simrt.NewReplayTape(small), res.Seed, res.Run, tier, true)
+		final = execRun(t, sc, simrt.NewReplayTape(small.gen, small.sched), res.Seed, res.Run, tier, true)
 		repro = hasSig(final, v.Sig)
 		if isRace {
 			for _, rv := range raceSignatures(readRaceLog()) {
@@ -380,15 +380,15 @@ func reportViolation(t *testing.T, sc *Scenario, res *RunResult, v Violation, ti
 		}
 	}
 	rf := &ReplayFile{Property: sc.Prop, Scenario: sc.Name, Seed: res.Seed, Run: res.Run, Tier: tier, Race: simrt.RaceBuild,
-		Tape: small, Violation: Violation{Rule: v.Rule, Msg: msg, Sig: v.Sig}, Digest: final.Digest, Desc: final.Desc,
-		Shrunk: len(small) < len(orig), OrigLen: len(orig)}
+		Tape: small.gen, Sched: small.sched, Violation: Violation{Rule: v.Rule, Msg: msg, Sig: v.Sig}, Digest: final.Digest, Desc: final.Desc,
+		Shrunk: len(small.gen)+len(small.sched) < len(orig.gen)+len(orig.sched), OrigLen: len(orig.gen) + len(orig.sched)}
 	name := fmt.Sprintf("%s-%s-s%d-r%d.json", sc.Prop, sanitize(v.Sig), res.Seed, res.Run)
 	path := filepath.Join(replayDir, name)
 	if err := writeReplay(path, rf); err != nil {
 		path = "WRITE-FAILED:" + err.Error()
 	}
 	return violationLine{Type: "violation", Prop: sc.Prop, Sig: v.Sig, Rule: v.Rule, Msg: truncate(msg, 6000), Replay: path, Seed: res.Seed, Run: res.Run,
-		Scenario: sc.Name, Reproduced: repro, ShrinkTries: tries, TapeLen: len(small)}
+		Scenario: sc.Name, Reproduced: repro, ShrinkTries: tries, TapeLen: len(small.gen) + len(small.sched)}
 }
 
 func sanitize(s string) string {
@@ -441,7 +441,7 @@ func replayMain(t *testing.T, enc *json.Encoder, path, tier string) {
 		tier = rf.Tier
 	}
 	readRaceLog()
-	res := execRun(t, sc, simrt.NewReplayTape(rf.Tape), rf.Seed, rf.Run, tier, true)
+	res := execRun(t, sc, simrt.NewReplayTape(rf.Tape, rf.Sched), rf.Seed, rf.Run, tier, true)
 	if simrt.RaceBuild {
 		res.Viol = append(res.Viol, raceSignatures(readRaceLog())...)
 	}
